@@ -257,6 +257,13 @@ def run(ctx):
                 drained[f] = (cs, show(cs.arg(1 - i)))
     ctx.table('containers drained at close', sorted((k, v[1]) for k, v in drained.items()))
     ctx.floor(len(drained), 5, 'containers drained (mem::swap) in the closed handler')
+    nuad = 0
+    for v_ in F.fns_in(P):
+        for name_, d_, u_ in prims.use_after_drain(v_):
+            nuad += 1
+            ctx.ob(False, '%s: local container `%s` is read by %s after %s emptied it (the later reader silently sees nothing)' % (short(v_.path), name_, short(u_.fn), short(d_.fn)),
+                   'use-after-drain|%s|%s' % (short(v_.path), name_), loc=u_.loc())
+    ctx.ob(nuad == 0, 'no engine function reads a local operation container after draining it', 'use-after-drain|none')
     fails = ch.calls('ProtocolState::complete_operation_sequence_as_failure')
     fail_args = ' ## '.join(show(c.arg(1)) for c in fails)
     appends = [m for m in prims.mutations(ch) if m.kind == 'mutcall' and m.method in ('append', 'push_back', 'push_front', 'extend')]
@@ -280,6 +287,21 @@ def run(ctx):
                                 ret_used = True
         if 'high_priority' in cs.nfn:
             ctx.note('listed exception: retained half of the high-priority partition is dropped (PUBREL operations remain in the pending-publish table and are re-queued from there)')
+            # ... which is only sound when nothing is put into that queue during the close itself: an operation pushed there by
+            # the close-time handling would be discarded with the retained half and stay unresolved forever (defect 6b)
+            hp_ins = []
+            for v_ in [ch] + [c_ for c_ in F.reachable_from([ch]) if c_.file.endswith(P)]:
+                for m_ in prims.mutations(v_):
+                    if prims.self_field(m_.path) == 'high_priority_operation_queue' and m_.kind == 'mutcall' and m_.method not in ('swap',):
+                        hp_ins.append(m_)
+                for c_ in v_.calls('ProtocolState::enqueue_operation'):
+                    hp_ins.append(c_)
+            ctx.ob(not hp_ins, 'the close-time handling inserts nothing into the high-priority queue, whose retained half is discarded in the same handler (%s)' % [x.loc() for x in hp_ins],
+                   'discarded-queue|no-insert', loc=cs.loc())
+            tbl = [c_ for c_ in ctx.fn('ProtocolState::handle_pubrec').calls('ProtocolState::enqueue_operation')]
+            hpv = ctx.fn('ProtocolState::handle_pubrec')
+            ctx.ob(len(tbl) == 1 and prims.guarded_any(hpv, tbl[0].bb, [r'^HashMap::get\(self\.pending_publish_operations, .*\) is Some$']),
+                   'a PUBREL enters the high-priority queue only for an operation found in the unacked-publish table (so the discarded retained half is always re-queued from that table)', 'discarded-queue|pubrel-in-table', loc=hpv.loc())
         else:
             ctx.ob(ret_used, 'retained half of %s(%s) is appended to a tracked queue' % (short(cs.fn), src[:40]), 'partition-retained|%s|%s' % (short(cs.fn), src[:40]), loc=cs.loc())
     ctx.floor(len(parts), 3, 'partition calls in the closed handler')
